@@ -187,7 +187,16 @@ fn value_oracles<K: Kind>(ck: &mut Ck, p: &GenericPurl<K::T>, builtin: bool, par
         return; // Display panics: documented
     }
     // C03 ---------------------------------------------------------------
-    let s = p.to_string();
+    let s = match catch_unwind(AssertUnwindSafe(|| p.to_string())) {
+        Ok(s) => s,
+        Err(_) => {
+            ck.fail("C06", "formatting a PURL panics");
+            if builtin {
+                ck.fail("C04", "a PURL with a built-in type parameter has a type string that Display refuses");
+            }
+            return;
+        },
+    };
     if builtin {
         ck.req("C03", !ty.bytes().any(|b| b.is_ascii_uppercase()), "type in the canonical string is not lower case");
     }
@@ -616,6 +625,7 @@ fn c09<K: Kind>(ck: &mut Ck, a: &[&str], made: &Made<K::T>, typed: bool) {
 fn purl_case_oracles(ck: &mut Ck, a: &[&str]) {
     match a[1] {
         "g" => {
+            c13(ck, a);
             let m = make_g(a);
             if a[0] == "B" {
                 if let Made::Purl(p) = &m {
@@ -625,7 +635,6 @@ fn purl_case_oracles(ck: &mut Ck, a: &[&str]) {
             } else {
                 parse_oracles::<KG>(ck, a, &m);
             }
-            c13(ck, a);
         },
         "s" => {
             let m = make_s(a);
@@ -675,7 +684,7 @@ fn q_oracle(ck: &mut Ck, spec: &str) {
     };
     for (i, o) in ops.iter().enumerate() {
         let f: Vec<&str> = o.split(':').collect();
-        let k = if f.len() > 1 && !matches!(f[0], "M" | "I" | "J" | "tr" | "tC" | "tk" | "tkg" | "tkd") { uh(f[1]) } else { String::new() };
+        let k = if f.len() > 1 && !matches!(f[0], "M" | "I" | "J" | "tr" | "tC" | "tk" | "tkg" | "tkd" | "tu" | "tug" | "tud" | "wc" | "re" | "rv") { uh(f[1]) } else { String::new() };
         let lk = k.to_ascii_lowercase();
         let vk = valid_key(&k);
         let want: String = match f[0] {
@@ -709,10 +718,11 @@ fn q_oracle(ck: &mut Ck, spec: &str) {
                 },
                 None => "PANIC".into(),
             },
-            "C" => {
+            "C" | "wc" => {
                 m.clear();
                 "u".into()
             },
+            "re" | "rv" => "u".into(),
             "t" => {
                 m.retain(|_, v| !v.is_empty());
                 "u".into()
@@ -807,6 +817,23 @@ fn q_oracle(ck: &mut Ck, spec: &str) {
                 }
             },
             "l" => format!("l:{}:{}:{}:{}:true:{}:{}", m.len(), if m.is_empty() { "t" } else { "f" }, m.len(), m.len(), m.len(), m.len()),
+            "tu" | "tug" | "tud" => {
+                let key = ["buildtag", "x-y.z_1"].get(f[1].parse::<usize>().unwrap()).map(|s| s.to_string());
+                match (key, f[0]) {
+                    (None, "tu") => "PANIC".into(),
+                    (None, "tug") => "n".into(),
+                    (None, _) => "u".into(),
+                    (Some(key), "tu") => {
+                        m.insert(key, uh(f[2]));
+                        "u".into()
+                    },
+                    (Some(key), "tug") => ovs(m.get(&key)),
+                    (Some(key), _) => {
+                        m.remove(&key);
+                        "u".into()
+                    },
+                }
+            },
             "tk" | "tkg" | "tkd" => {
                 let keys = ["repository_url", "download_url", "vcs_url", "file_name", "platform", "classifier", "type"];
                 let key = keys[f[1].parse::<usize>().unwrap()].to_string();
@@ -1220,7 +1247,7 @@ pub fn check(line: &str) -> String {
                 let outs: Vec<&str> = l.split('|').next().unwrap().split(',').collect();
                 let ops: Vec<&str> = a[1].split(',').collect();
                 for (o, op) in outs.iter().zip(ops.iter()) {
-                    if *o == "PANIC" && !(op.starts_with("x:") || op.starts_with("X:")) {
+                    if *o == "PANIC" && !(op.starts_with("x:") || op.starts_with("X:") || op.starts_with("tu:2:")) {
                         ck.fail("C06", format!("operation {} panics", op));
                     }
                 }
@@ -1248,6 +1275,23 @@ pub fn check(line: &str) -> String {
             "T" => t_oracle(&mut ck, &uh(a[1])),
             #[cfg(feature = "pt")]
             "N" => n_oracle(&mut ck, &a),
+            #[cfg(feature = "pt")]
+            "M" => {
+                if let Ok(p) = Purl::from_str(&uh(a[1])) {
+                    let i = PTS.iter().position(|t| t == p.package_type()).unwrap();
+                    let side = match i {
+                        2 | 4 => !p.name().contains('/'),
+                        3 => p.namespace().map(|n| !n.contains(':')).unwrap_or(false),
+                        _ => p.namespace().is_none(),
+                    };
+                    if side {
+                        let b2 = Purl::builder_with_combined_name(*p.package_type(), p.combined_name());
+                        if b2.parts.namespace.as_str() != p.namespace().unwrap_or("") || b2.parts.name.as_str() != p.name() {
+                            ck.fail("C18", format!("combined_name {:?} of {} does not split back into ({:?},{:?})", p.combined_name(), p, p.namespace(), p.name()));
+                        }
+                    }
+                }
+            },
             "K" => k_oracle(&mut ck, &a),
             "H" => h_oracle(&mut ck, &a),
             #[cfg(feature = "serde")]
